@@ -24,7 +24,7 @@ assumed('substitution._name_match',
 contract('substitution._split',
          params={'s': 'str'},
          returns='Tuple[str, Opt[str], Opt[str], Opt[str], Opt[str]]',
-         ensures=[Clause('result == split_spec(s)', carries='C04', label='SplitSpec'),
+         ensures=[Clause('result == split_spec(s)', carries='C04,C05', label='SplitSpec'),
                   Clause("implies('$' in s, result[3] is not None and len(val(result[3])) < len(s))", label='suffix-shorter'),
                   Clause("implies('$' not in s, result == (s, None, None, None, None))", label='no-dollar'),
                   Clause("implies(result[1] is not None, result[1] != '' and result[2] is not None and result[4] is not None)", label='name-shape'),
